@@ -7,4 +7,5 @@ CONSTANTS
   BC <- SBC
   BBit <- SBBit
   BBase <- SBBase
+  BHas <- SBHas
   RekeyOp <- SRekeyOp
